@@ -18,5 +18,8 @@ func TestC14(t *testing.T) {
 	core.DFS(r, core.Check[assocCase]{Name: "small-histories", Gen: genSmallAssoc("map", r.N(3, 4)), Exec: execAssocCase, NoJournal: true}, 0)
 	core.DFS(r, core.Check[longLivedCase]{Name: "long-lived-instance", Gen: genLongLived([]string{"Map"}, r.N(150000, 1200000)), Exec: execLongLived("C14"), NoJournal: true, HangLimit: 300 * time.Second}, 0)
 	core.DFS(r, core.Check[lookupCase]{Name: "class-lookups", Gen: genLookups([]string{"Map"}), Exec: execLookups("C14"), NoJournal: true}, 0)
+	core.DFS(r, core.Check[keysInUseCase]{Name: "key-sequence-in-use", Gen: func(s core.Source) keysInUseCase {
+		return keysInUseCase{Fn: core.Pick(s, []string{"Map.RemoveValues", "Map.GetValues"}, "fn"), Rounds: r.N(3000, 30000)}
+	}, Exec: execKeysInUse("C14"), NoJournal: true, HangLimit: 300 * time.Second}, 0)
 	core.DFS(r, core.Check[hugeCase]{Name: "huge-sizes", Gen: genHuge([]string{"Map"}, []int{16389, 65541, 70001}), Exec: execHuge("C14"), NoJournal: true, HangLimit: 300 * time.Second}, 0)
 }
